@@ -170,6 +170,8 @@ class Interposer:
             self.fired.append({"at": o.k, "op": o.op, "kind": f["kind"], "errno": f.get("errno"), "paths": o.paths})
 
     def _die(self, o: Op) -> None:
+        if self.knobs.get("real_exit"):
+            os._exit(137)  # cross-validation mode: the (forked) process really dies here
         self.dead = True
         self.crash_at = o.k
         o.outcome = "crash" if o.outcome == "ok" else o.outcome + "+crash"
